@@ -225,6 +225,9 @@ func (fc *FnCtx) addOblig(o *Oblig) {
 	o.block = fc.curBlock
 	o.seq = fc.seq
 	o.Fn = fc.spec.Name
+	if len(o.Tags) == 0 {
+		o.Tags = fc.spec.allTags()
+	}
 	fc.obligs = append(fc.obligs, o)
 }
 
@@ -693,6 +696,12 @@ func (fc *FnCtx) zeroStruct(st *State, ref string, t types.Type) *State {
 		a := &Addr{Kind: aField, Obj: ref, ST: t, F: i}
 		switch kindOf(ft) {
 		case KStruct:
+			if tk := typeKey(ft); tk == "sync.Mutex" || tk == "sync.RWMutex" {
+				// a fresh mutex is unlocked
+				fc.regArr("G!muHeld", "(Array Int Int)")
+				st = st.store("G!muHeld", sx("store", st.get("G!muHeld"), fc.structRef(a, ft), "0"))
+				continue
+			}
 			st = fc.zeroStruct(st, fc.structRef(a, ft), ft)
 		case KArray:
 			et := ft.Underlying().(*types.Array).Elem()
